@@ -220,6 +220,20 @@ pub fn expr_into_bytes(ir: &tir::Expression) -> Result<primitives::Bytes, Error>
     }
 }
 
+/// Asset names are limited to 32 bytes by the ledger.
+pub fn expr_into_asset_name(ir: &tir::Expression) -> Result<primitives::Bytes, Error> {
+    let name = expr_into_bytes(ir)?;
+
+    if name.len() > 32 {
+        return Err(Error::CoerceError(
+            hex::encode(name.as_slice()),
+            "asset name (at most 32 bytes)".to_string(),
+        ));
+    }
+
+    Ok(name)
+}
+
 pub fn expr_into_hash<const SIZE: usize>(
     ir: &tir::Expression,
 ) -> Result<primitives::Hash<SIZE>, Error> {
